@@ -9,10 +9,12 @@ from treeref import loads, loads_stream, same, BadJson
 
 SIMPLE_KEYS = ["a", "b", "k", "name", "id", "v", "list", "z9", "Key", "x_y"]
 ODD_KEYS = ["", " ", "a b", "\u00e9", "\u65e5\u672c", "a.b", "k\"q", "back\\slash", "<tag>", "&amp;", "\u2028", "tab\there", "nul\u0000",
-            "length", "pluck", "0", "-1", "\U0001f600", "$", "a/b"]
+            "length", "pluck", "0", "-1", "\U0001f600", "$", "a/b", "k\\u003ek", "\\u0026"]
 STR_PIECES = ["a", "abc", "Hello, World", " ", "", "\u00e9", "\u00fc", "\u65e5\u672c\u8a9e", "\U0001f600", "\u2028", "\u2029", "<", ">", "&",
               "<script>", "\"", "\\", "/", "\b", "\f", "\n", "\r", "\t", "\u0000", "\u0001", "\u001f", "\u007f", "\u0080", "\u00ff",
-              "\ufffd", "\uffff", "'", "%s", "{}", "[]", "null", "0", "\U0001d11e", "\u0300", "a\u0000b"]
+              "\ufffd", "\uffff", "'", "%s", "{}", "[]", "null", "0", "\U0001d11e", "\u0300", "a\u0000b",
+              # text that LOOKS like the encoder's own escapes: a literal backslash followed by an escape body
+              "\\u003c", "\\u003e", "\\u0026", "\\u2028", "\\u0000", "\\n", "\\\"", "x\\u003cy", "u003c", "\\\\u0026"]
 ESC = {'"': '\\"', "\\": "\\\\", "\b": "\\b", "\f": "\\f", "\n": "\\n", "\r": "\\r", "\t": "\\t"}
 NUM_TEXTS = ["0", "-0", "-0.0", "0.0", "0e0", "1", "-1", "1.0", "1.5", "-2.5", "10", "100", "1e2", "1E2", "1e+2", "1e-2", "1.0E+2",
              "0.1", "0.2", "0.30000000000000004", "1e21", "1e20", "999999999999999900000", "1e-7", "1e-6", "0.000001", "0.0000001",
